@@ -96,7 +96,8 @@ theorem find_accepts_only_valid_partial (confs : List ConfEntry) (name key : Byt
     · rename_i hv
       exact (valid_iff_spec name).mp hv
 
-/-- With the proposed fix (validate first) the statement holds for every configuration map. -/
+/-- With the alternative order (validate first; not adopted, it contradicts C14's "exact name wins") the
+statement would hold for every configuration map. -/
 theorem find_accepts_only_valid_fixed (confs : List ConfEntry) (name key : Bytes)
     (h : findPathConfFixed confs name = .found key) : validSpec name = true := by
   unfold findPathConfFixed at h
@@ -105,7 +106,7 @@ theorem find_accepts_only_valid_fixed (confs : List ConfEntry) (name key : Bytes
   · rename_i hv
     exact (valid_iff_spec name).mp hv
 
-/-- the fix changes nothing for valid names. -/
+/-- the alternative order changes nothing for valid names. -/
 theorem find_fixed_eq (confs : List ConfEntry) (name : Bytes) (hv : isValidPathName name = none) :
     findPathConfFixed confs name = findPathConf confs name := by
   simp [findPathConfFixed, hv]
